@@ -751,6 +751,10 @@ impl Engine for C06 {
         ).workers(8));
         if t {
             v.insert(2, Phase::new("all ordered triples of a 40-program sub-corpus compiled in one process", json!({"kind":"triples","thorough":t})));
+            // the tape search over the whole corpus is by far the longest bound of the thorough
+            // tier: it goes last, so that a wall-clock cap cuts it and not the others
+            let tapes = v.remove(0);
+            v.push(tapes);
         }
         v
     }
